@@ -38,9 +38,11 @@ extern "C" void h_ds_mul() {         // (high, low) == a * k exactly, all operan
 
 // precondition as established by BigInt::Divide: divisor != 0, high < divisor, shift = 63 - msb(divisor) (64-bit only)
 extern "C" void h_ds_div() {         // (high:low) / d and % d exactly
-    W hi = vf_any<W>(); W lo = vf_any<W>(); W d = vf_any<W>();
+    W hi = vf_any<W>(); W lo = vf_any<W>();
 #ifdef DIVISOR
-    vf_assume(d == W(DIVISOR));
+    const W d = W(DIVISOR);          // a literal: the solver sees a constant divisor
+#else
+    W d = vf_any<W>();
 #endif
     vf_assume(d != 0 && hi < d);
     {
